@@ -17,8 +17,14 @@ VBreaker(r) ==
       e == ExpectBreaker(s) IN
   (IF \E k \in 1..Len(e) : e[k].invoked # r.invoked[k] THEN {"breaker_invocation"} ELSE {}) \cup
   (IF \E k \in 1..Len(e) : e[k].res # r.res[k] THEN {"breaker_result"} ELSE {})
+\* n concurrent failing calls inside the cool-down: in every order of taking effect the same number of them is invoked
+VBreakerConc(r) ==
+  LET e == BreakerRun(B0, 1000000, r.thr, [k \in 1..r.n |-> <<0, "fail">>])
+      want == Cardinality({k \in 1..Len(e) : e[k].invoked}) IN
+  IF r.invoked # want THEN {"breaker_concurrent_calls_not_linearizable"} ELSE {}
 VBackoff(r) == IF BackoffOK(r) THEN {} ELSE {"backoff_outside_window_or_negative"}
-Verdict(r) == IF r.kind = "retry" THEN VRetry(r) ELSE IF r.kind = "breaker" THEN VBreaker(r) ELSE VBackoff(r)
+Verdict(r) == IF r.kind = "retry" THEN VRetry(r) ELSE IF r.kind = "breaker" THEN VBreaker(r)
+              ELSE IF r.kind = "breaker_conc" THEN VBreakerConc(r) ELSE VBackoff(r)
 ASSUME LET rs == Results
            bad == SelectSeq([k \in 1..Len(rs) |-> [row |-> k, clauses |-> SetToSeq(Verdict(rs[k])), r |-> rs[k]]],
                             LAMBDA b : b.clauses # <<>>)
